@@ -153,7 +153,8 @@ def run_case(case, tracer, tracer_mods):
             sweep = []
             for d in case["dirs"]:
                 row = []
-                for start in range(len(sh["vs"])):
+                for start in sorted(int(k) for k in c._support_function.connections.keys()):
+                    # only vertices of the triangulation can have been cached by an earlier query
                     c._support_function.first_idx = start
                     p = fl(col.support_function(arr(d)))
                     row.append([int(c._support_function.first_idx), p])
